@@ -74,11 +74,9 @@ impl CaoLangAllocator {
     pub unsafe fn alloc(&self, l: Layout) -> Result<NonNull<u8>, AllocError> {
         let s = l.size() + l.align();
         let allocated = s + self.allocated.fetch_add(s, Ordering::Relaxed);
-        #[cfg(feature = "verif-hooks")]
         if allocated > self.limit.load(Ordering::Relaxed) {
+            #[cfg(feature = "verif-hooks")]
             (*self.verif.get()).on_fail(l.size(), s, self.allocated.load(Ordering::Relaxed));
-        }
-        if allocated > self.limit.load(Ordering::Relaxed) {
             return Err(AllocError::OutOfMemory);
         }
         #[cfg(feature = "verif-hooks")]
